@@ -319,7 +319,7 @@ _ADD4 = {
     'C14': ' Plus: address lists in the control plane\'s own order (unsorted, with a repetition: the first binds), services the table knows under another domain only (unbound) or under both domains.',
     'C15': ' Plus: routes with header conditions - including expressions the engine rejects - and call metadata that carries the keys.',
     'C18': ' Plus: inbound chains in the usual Istio shape (TypedStruct filters of other kinds in front of the rate limit and a router behind it; the rate limit itself as a TypedStruct); a limiter option that has lost its UpdateControl when the server starts is a reported failure.',
-    'C19': ' Plus: worlds whose sweep empties a whole type; the re-subscription after an eviction must echo the nonce of the latest response of its type (else a protocol-following control plane ignores it).',
+    'C19': ' Plus: worlds whose sweep empties a whole type; the re-subscription after an eviction must echo the nonce of the latest response of its type (else a protocol-following control plane ignores it); a world whose stream fails while the sweep\'s first withdrawal is inside Send (40 idle names, one in use): after the reconnect the control plane\'s last word names exactly what Sweep.sweep leaves subscribed.',
 }
 for _k, _r in _ADD4.items():
     PROPS[_k]['rule'] = PROPS[_k]['rule'] + _r
